@@ -34,7 +34,9 @@ func (x *Exec) execInstr(fr *Frame, st *State, instr ssa.Instruction) {
 		addr := x.get(fr, ins.Addr)
 		elem := ins.Addr.Type().Underlying().(*types.Pointer).Elem()
 		p := x.ptrPlace(addr, elem)
-		x.nilCheckPlace(st, p, ins.Pos(), ins.Addr)
+		if !derivedAddr(ins.Addr) {
+			x.nilCheckPlace(st, p, ins.Pos(), ins.Addr)
+		}
 		v := x.get(fr, ins.Val)
 		x.writeHook(fr, st, p, ins.Pos())
 		x.storePlace(st, p, x.coerce(v, elem))
@@ -147,7 +149,9 @@ func (x *Exec) execUnOp(fr *Frame, st *State, ins *ssa.UnOp) {
 		addr := x.get(fr, ins.X)
 		elem := ins.X.Type().Underlying().(*types.Pointer).Elem()
 		p := x.ptrPlace(addr, elem)
-		x.nilCheckPlace(st, p, ins.Pos(), ins.X)
+		if !derivedAddr(ins.X) {
+			x.nilCheckPlace(st, p, ins.Pos(), ins.X)
+		}
 		fr.vals[ins] = x.loadPlace(st, p)
 	case token.NOT:
 		fr.vals[ins] = VScalar{Not(x.get(fr, ins.X).(VScalar).T)}
@@ -553,7 +557,7 @@ func (x *Exec) execIndexAddr(fr *Frame, st *State, ins *ssa.IndexAddr) {
 	case *types.Slice:
 		s := base.(VSlice)
 		x.panicCheck(st, "bounds", ins.Pos(), And(Le(IntLit(0), idx), Lt(idx, s.Len)))
-		fr.vals[ins] = VPtr{&Place{Kind: PElem, Ref: s.Arr, Idx: x.define("ix", Add(s.Off, idx)), Root: t.Elem(), Typ: t.Elem()}}
+		fr.vals[ins] = VPtr{&Place{Kind: PElem, Ref: s.Arr, Idx: At(s.Off, idx), Root: t.Elem(), Typ: t.Elem()}}
 	case *types.Pointer: // pointer to array
 		arrT := t.Elem().Underlying().(*types.Array)
 		x.panicCheck(st, "bounds", ins.Pos(), And(Le(IntLit(0), idx), Lt(idx, IntLit(arrT.Len()))))
@@ -583,7 +587,7 @@ func (x *Exec) execIndex(fr *Frame, st *State, ins *ssa.Index) {
 	switch b := base.(type) {
 	case VStr:
 		x.panicCheck(st, "bounds", ins.Pos(), And(Le(IntLit(0), idx), Lt(idx, b.Len)))
-		fr.vals[ins] = VScalar{x.define(ins.Name(), x.sat(b.Base, addSimpl(b.Off, idx)))}
+		fr.vals[ins] = VScalar{x.define(ins.Name(), x.sat(b.Base, At(b.Off, idx)))}
 	case VArr:
 		x.panicCheck(st, "bounds", ins.Pos(), And(Le(IntLit(0), idx), Lt(idx, IntLit(b.N))))
 		var ts []Term
@@ -785,7 +789,7 @@ func (x *Exec) execLookup(fr *Frame, st *State, ins *ssa.Lookup) {
 		s := x.get(fr, ins.X).(VStr)
 		idx := x.get(fr, ins.Index).(VScalar).T
 		x.panicCheck(st, "bounds", ins.Pos(), And(Le(IntLit(0), idx), Lt(idx, s.Len)))
-		fr.vals[ins] = VScalar{x.sat(s.Base, addSimpl(s.Off, idx))}
+		fr.vals[ins] = VScalar{x.sat(s.Base, At(s.Off, idx))}
 		return
 	}
 	m := x.get(fr, ins.X).(VScalar).T
@@ -935,4 +939,13 @@ func (x *Exec) execSelect(fr *Frame, st *State, ins *ssa.Select) {
 		}
 	}
 	fr.vals[ins] = VTuple{vals}
+}
+
+// derivedAddr: the address comes from a FieldAddr/IndexAddr, whose own nil/bounds obligation covers it.
+func derivedAddr(v ssa.Value) bool {
+	switch v.(type) {
+	case *ssa.FieldAddr, *ssa.IndexAddr:
+		return true
+	}
+	return false
 }
